@@ -81,6 +81,17 @@ fn gen_dec(rng: &mut Rng) -> String {
     }
 }
 
+/// the same decimal with its last digit moved by one (stays a plain decimal)
+fn bump_last_digit(a: &str, rng: &mut Rng) -> String {
+    let mut cs: Vec<char> = a.chars().collect();
+    if let Some(i) = cs.iter().rposition(|c| c.is_ascii_digit()) {
+        let d = cs[i].to_digit(10).unwrap();
+        let nd = if d == 9 { 8 } else if d == 0 { 1 } else if rng.chance(1, 2) { d + 1 } else { d - 1 };
+        cs[i] = char::from_digit(nd, 10).unwrap();
+    }
+    cs.into_iter().collect()
+}
+
 fn set_args(ctx: &mut duckscript::types::runtime::Context, args: &[String]) -> Vec<String> {
     let mut out = vec![];
     for (i, a) in args.iter().enumerate() {
@@ -293,6 +304,15 @@ impl Prop for C16Prop {
                 out.push(case_of(c, (0..n).map(|i| ["ab", "1", "2"][i].to_string()).collect(), "arity"));
             }
         }
+        // numerically CLOSE operands (a comparison done in lower precision, e.g. f32, is wrong here)
+        for (a, b) in [("16777216", "16777217"), ("-16777216", "-16777217"), ("4294967296", "4294967297"),
+                       ("1700000000", "1700000001"), ("123456789", "123456790"), ("999999999999998", "999999999999999"),
+                       ("0.1", "0.10000000001"), ("1.0000001", "1.00000011"), ("33554432.5", "33554433.5"), ("2147483647", "2147483648")] {
+            for (x, y) in [(a, b), (b, a), (a, a)] {
+                out.push(case_of("less_than", vec![s(x), s(y)], "close-numbers"));
+                out.push(case_of("greater_than", vec![s(x), s(y)], "close-numbers"));
+            }
+        }
         for a in FLOATS {
             for b in FLOATS {
                 out.push(case_of("less_than", vec![s(a), s(b)], "float-spelling"));
@@ -333,7 +353,12 @@ impl Prop for C16Prop {
                 let big = |v: &str| strict_i64(v).map(|n| n.unsigned_abs() > 1000).unwrap_or(false);
                 if big(&x) || big(&y) { ("range", vec![x.clone(), x]) } else { ("range", vec![x, y]) }
             }
-            _ => (*rng.pick(&["less_than", "greater_than"]), vec![gen_dec(rng), gen_dec(rng)]),
+            _ => {
+                let a = gen_dec(rng);
+                // half of the time the second operand differs from the first only in its last digit
+                let b = if rng.chance(1, 2) { bump_last_digit(&a, rng) } else { gen_dec(rng) };
+                (*rng.pick(&["less_than", "greater_than"]), if rng.chance(1, 2) { vec![a, b] } else { vec![b, a] })
+            }
         };
         case_of(cmd, args, tag_of(cmd))
     }
